@@ -39,7 +39,7 @@ ASSUMPTIONS = [
     "to 1e6 eye heights",
     "each op is one waveform case; the number of GET_EYE calls per op is 2*K",
 ]
-N_RUNS = {"quick": 800, "thorough": 16000}
+N_RUNS = {"quick": 1600, "thorough": 16000}
 NONTRIVIAL_OPS = 1
 
 
@@ -88,7 +88,8 @@ def generate(seed, tier):
             inv = rng.random() < 0.4
             nsl = rng.choice([512, 768, 1024])
         ops.append({"op": "case", "sps": sps, "R": rng.choice([1e9, 10e9, 2.5e9]), "nslots": nsl,
-                    "pattern": pattern, "inv": inv,
+                    "pattern": pattern, "inv": inv, "gvstyle": rng.choice(["sps", "sps", "sps", "fs", "fsdt"]),
+                    "early": rng.random() < 0.25,
                     "bseed": rng.getrandbits(31),
                     "a": a, "swing": swing, "bwf": rng.uniform(0.7, 1.0),
                     "sigma": rng.uniform(0.005, 0.012) if (corner and rng.random() < 0.5) else rng.uniform(0.005, 0.05),
@@ -216,7 +217,7 @@ class Bench:
     def op_case(self, op):
         sps, a, swing = op["sps"], op["a"], op["swing"]
         b = a + swing
-        common.apply_gv({"sps": sps, "R": op["R"]})
+        common.apply_gv(common.gv_kw(sps, op["R"], op.get("gvstyle", "sps")))
         self.rec.fault("gv_reconf")
         bits = _bits(op)
         unit = np.kron(bits, np.ones(sps)).astype(float)
@@ -229,7 +230,17 @@ class Bench:
                 f"{op['form']})")
         fields = ("mu0", "mu1", "s0", "s1", "threshold", "t_left", "t_right", "t_opt", "i")
         digs = []
-        record = self._container(clean, noise, op["form"])      # the same object is analysed under every seed
+        if op.get("early"):
+            # the container was created while another grid was in force (records collected first, grid configured
+            # for each of them afterwards): the estimate depends on the grid in force when GET_EYE is called
+            other = [s_ for s_ in (8, 16, 32) if s_ != sps][op["bseed"] % 2]
+            common.apply_gv({"sps": other, "R": op["R"]})
+            record = self._container(clean, noise, op["form"])
+            common.apply_gv(common.gv_kw(sps, op["R"], op.get("gvstyle", "sps")))
+            self.rec.fault("container_built_early")
+        else:
+            record = self._container(clean, noise, op["form"])      # the same object is analysed under every seed
+        v_first = None
         for k, seed in enumerate(op["seeds"]):
             try:
                 e = self._estimate_obj(record, seed)
@@ -272,6 +283,8 @@ class Bench:
                 raise Violation("C17/timing", f"{w}: t_opt={v['t_opt']:.5f} is not midway between the crossings "
                                               f"({(v['t_left'] + v['t_right']) / 2:.5f}) within one resampled step",
                                 f"timing/opt/{self._ampclass(swing)}")
+            if v_first is None:
+                v_first = dict(v)
             iv = v["i"]
             if int(iv) != iv or not (0 <= iv < sps):
                 raise Violation("C17/index", f"{w}: sampling index i={iv!r} is not an integer in [0, {sps})", "index")
@@ -306,6 +319,22 @@ class Bench:
             self.rec.sig(sps, self._ampclass(swing), "lo" if op["sigma"] < 0.015 else "hi",
                          int(np.floor(np.log10(alpha))), k, op["form"])
             self.rec.probe("GET_EYE calls", 2)
+        # the record analysed again under the first seed: same waveform, same draws -> the same estimate (a callee
+        # that touched the caller's record, or state carried between calls, shows up here)
+        if v_first is not None:
+            try:
+                e3 = self._estimate_obj(record, op["seeds"][0])
+            except Exception as ex:
+                raise Violation("C17/finite", f"{what}: analysing the same record again raised {type(ex).__name__}: {ex}",
+                                "raise/again")
+            bad = [f"{f}: {getattr(e3, f, None)!r} vs {v_first[f]!r}" for f in fields
+                   if getattr(e3, f, None) is None or not np.isfinite(float(getattr(e3, f)))
+                   or abs(float(getattr(e3, f)) - float(v_first[f])) > 1e-9 * max(abs(float(v_first[f])), swing)]
+            if bad:
+                raise Violation("C17/equivariance", f"{what}: the same record analysed again under clustering seed "
+                                                    f"{op['seeds'][0]} gives another estimate: " + "; ".join(bad[:4]),
+                                f"repeat/{bad[0].split(':')[0]}")
+            self.rec.probe("GET_EYE calls", 1)
         if len(set(digs)) > 1:
             self.rec.probe("clustering seeds gave different (in-band) estimates")
         self.rec.ok_ops += 1
